@@ -12,6 +12,7 @@
 -/
 import BSVerif.BinStream.Lemmas
 import BSVerif.BinStream.Oracle
+import BSVerif.Props.C10csv
 
 namespace BSVerif.Props.C10
 open BSVerif.BinStream
